@@ -8,6 +8,9 @@
 (*   op    addBlack addRewriter addAgg addRoute addGnet modDest modRoute     *)
 (*         delRoute | delDest delAgg delBlack delRewriter (API level, HTTP   *)
 (*         UI) | garbage (mutated / random command text or TOML) | view      *)
+(*         | config (the top-level configuration the relay is started with:  *)
+(*         cfg.Config -> TableConfig() -> table.New, as main() does; only    *)
+(*         the first command of a history)                                   *)
 (*   via   cmd (imperatives.Apply)  toml (cfg.InitXxx path) api (Table API)   *)
 (*   rtype route type, key abstract route key (k1 k2 nokey), n number of     *)
 (*         destinations (addRoute) or index (modDest, delDest ...),         *)
@@ -39,6 +42,20 @@ RexClasses == {"empty", "typical", "badregex", "huge"}
 \*   dotsname  the name consists of dots only
 \*   longname  the name is very long (the matched name many times over)
 NameClasses == {"emptyexp", "spacename", "dotsname", "longname"}
+\* classes of the grafanaNet `addr` parameter by the shape of the URL.  The route derives the schemas / aggregation
+\* endpoints from the address TEXT, which has to end in /metrics or /metrics/:
+\*   withquery       .../metrics?x=1   (the parsed path is /metrics, the text ends in the query)
+\*   withfragment    .../metrics#frag
+\*   pctencoded      the parsed path ends in /metrics[/] only after percent-decoding (/%6Detrics, /metrics%2F)
+\*   trailingslash   .../metrics/      (usable: the slash is stripped)
+\*   notaurl         not an absolute http[s] URL with a host
+\*   pathnotmetrics  a URL whose path is not a /metrics endpoint
+AddrClasses  == {"withquery", "withfragment", "pctencoded", "trailingslash", "notaurl", "pathnotmetrics"}
+AddrUnusable == AddrClasses \ {"trailingslash"}
+\* classes of the top-level setting bad_metrics_max_age (a duration string; the table cleans its bad-metrics
+\* records on a ticker of period maxAge/10): typical, zero, tiny (positive but < 10ns: the tenth is 0), neg,
+\* nonnum (not a duration / absent / wrong TOML type)
+MaxAgeClasses == {"typical", "zero", "tiny", "neg", "nonnum"}
 
 RTypes   == {"sendAllMatch", "sendFirstMatch", "consistentHashing"}
 Vias     == {"cmd", "toml"}
@@ -68,7 +85,7 @@ RouteCmds ==
     \cup {Cmd("addRoute", via, rt, "k1", 2, ov[1], ov[2], sp) :
         via \in Vias, rt \in RTypes, ov \in DestOV, sp \in BOOLEAN}
 
-GnetOV == ({"addr", "apikey", "schemas", "aggfile"} \X StrClasses)
+GnetOV == ({"addr", "apikey", "schemas", "aggfile"} \X StrClasses) \cup ({"addr"} \X AddrClasses)
           \cup ({"concurrency", "bufSize", "flushMaxNum", "orgId"} \X NumClasses)
           \cup ({"flushMaxWait", "timeout", "errBackoffMin"} \X DurClasses)
           \cup ({"errBackoffFactor"} \X {"zero", "neg", "nonnum", "huge", "typical"})
@@ -95,14 +112,18 @@ GarbageCmds == {Cmd("garbage", "cmd", "-", "-", 0, "mut", v, FALSE) :
                \cup {Cmd("garbage", "toml", "-", "-", 0, "mut", v, FALSE) :
                    v \in {"syntax", "wrongtype", "unknownroute", "bytes", "trunc", "nodests"}}
 ViewCmds == {Cmd("view", "cmd", "-", "-", 0, "none", "typical", FALSE)}
+ConfigCmds == {Cmd("config", "toml", "-", "-", 0, "bad_metrics_max_age", v, FALSE) : v \in MaxAgeClasses}
 
 Commands == BlackCmds \cup RewCmds \cup AggCmds \cup RouteCmds \cup GnetCmds \cup ModDestCmds
-            \cup ModRouteCmds \cup DelRouteCmds \cup ApiCmds \cup GarbageCmds \cup ViewCmds
+            \cup ModRouteCmds \cup DelRouteCmds \cup ApiCmds \cup GarbageCmds \cup ViewCmds \cup ConfigCmds
+
+\* the top-level configuration is what the relay is started with: first command of a history only
+FirstOnly(c) == c.op = "config"
 
 \* cheap structural membership tests (trace validation)
 Ops == {"addBlack", "addRewriter", "addAgg", "addRoute", "addGnet", "modDest", "modRoute", "delRoute",
-        "delDest", "delAgg", "delBlack", "delRewriter", "garbage", "view"}
-AllClasses == DurClasses \cup StrClasses \cup RexClasses \cup NameClasses
+        "delDest", "delAgg", "delBlack", "delRewriter", "garbage", "view", "config"}
+AllClasses == DurClasses \cup StrClasses \cup RexClasses \cup NameClasses \cup AddrClasses \cup MaxAgeClasses
 IsCommand(c) == /\ c.op \in Ops /\ c.via \in {"cmd", "toml", "api"} /\ c.n \in 0..9 /\ c.flag \in BOOLEAN
                 /\ c.pk \in BOOLEAN /\ (c.pk => c.op = "addRoute")
                 /\ c.key \in {"k1", "k2", "nokey", "-"} /\ c.rtype \in RTypes \cup {"GrafanaNet", "-"}
@@ -139,10 +160,13 @@ IsItem(it) == \/ (it.proto = "plain" /\ it.cls \in PlainCls)
               \/ (it.proto = "amqp" /\ it.cls \in AmqpCls)
 
 \* ------------------------------------------------------------- abstract table
-EmptyTable == [routes |-> <<>>, aggs |-> <<>>, nb |-> 0, nw |-> 0]
+\* cfg: the reasons why the top-level configuration the table was built from cannot work
+EmptyTable == [routes |-> <<>>, aggs |-> <<>>, nb |-> 0, nw |-> 0, cfg |-> {}]
 
 \* Parameters that cannot work: the value the relay would have to run with is not usable
-\* (zero divisor, nil regex, non-positive ticker period, zero/negative buffer, empty hash ring).
+\* (zero divisor, nil regex, non-positive ticker period, zero/negative buffer, empty hash ring,
+\* an address the grafanaNet route cannot derive its endpoints from, a bad-metrics max age whose
+\* tenth - the period of the cleaning ticker - is not a positive duration).
 Unworkable(c) ==
     \/ /\ c.op = "addAgg" /\ c.opt = "interval"
        /\ (c.val \in {"zero", "wrap"} \/ (c.via = "toml" /\ c.val = "missing"))
@@ -155,6 +179,8 @@ Unworkable(c) ==
     \/ c.op = "addRoute" /\ c.rtype = "consistentHashing" /\ c.n = 0
     \/ c.op = "addGnet" /\ c.opt = "concurrency" /\ (c.val = "neg" \/ (c.val = "zero" /\ c.via = "cmd"))
     \/ c.op = "addGnet" /\ c.opt = "bufSize" /\ c.val = "neg"
+    \/ c.op = "addGnet" /\ c.opt = "addr" /\ c.val \in AddrUnusable
+    \/ c.op = "config" /\ c.opt = "bad_metrics_max_age" /\ c.val \in {"zero", "tiny", "neg"}
 
 Why(c) == IF Unworkable(c) THEN {c.op \o ":" \o c.opt \o "=" \o c.val} ELSE {}
 
@@ -180,11 +206,12 @@ Do(c, t) ==
       [] c.op = "delAgg"      -> IF c.n >= Len(t.aggs) THEN t ELSE [t EXCEPT !.aggs = RemoveAt(@, c.n + 1)]
       [] c.op = "delBlack"    -> IF c.n >= t.nb THEN t ELSE [t EXCEPT !.nb = @ - 1]
       [] c.op = "delRewriter" -> IF c.n >= t.nw THEN t ELSE [t EXCEPT !.nw = @ - 1]
+      [] c.op = "config"      -> [EmptyTable EXCEPT !.cfg = Why(c)]      \* a new table built from this configuration
       [] OTHER -> t          \* modDest, modRoute, view, garbage (see AdminTrace for accepted garbage)
 
 \* reasons why a table cannot work
 Unsafe(t) ==
-    UNION {t.routes[i].why : i \in 1..Len(t.routes)} \cup UNION {t.aggs[i] : i \in 1..Len(t.aggs)}
+    t.cfg \cup UNION {t.routes[i].why : i \in 1..Len(t.routes)} \cup UNION {t.aggs[i] : i \in 1..Len(t.aggs)}
     \cup {"consistentHashing:emptied" : i \in {j \in 1..Len(t.routes) :
                                                   t.routes[j].rtype = "consistentHashing" /\ t.routes[j].nd = 0}}
 
